@@ -353,7 +353,8 @@ struct Value {
                 vc.push_back(z % 10);
             }
             j = 0;
-            for (auto it = vc.rbegin(); it != vc.rend(); ++it) {
+            // vc holds the digits least significant first, which is the reversed order already
+            for (auto it = vc.begin(); it != vc.end(); ++it) {
                 j = (j * 10) + *it;
             }
             int64 = j;
